@@ -42,6 +42,7 @@ type caseSpec struct {
 	Resp     string     `json:"resp,omitempty"`        //
 	Dep      string     `json:"dep,omitempty"`         // where the imported file lives: other | same | grpcname | ctxname
 	DepSvc   []string   `json:"dep_service,omitempty"` // when set the imported file declares a service too and is generated in the same request
+	Order    string     `json:"order,omitempty"`       // order of file_to_generate: "" = dependency first (topological), "dependent-first" = the file using the other's types is listed first
 	OptKey   string     `json:"opt_key"`               // name of the option set (fingerprints)
 	Param    string     `json:"param"`                 // the plugin parameter string
 }
@@ -62,6 +63,9 @@ func (c caseSpec) shapeKey() string {
 	k := strings.Join(s, "+")
 	if c.DepSvc != nil {
 		k += "&dep:" + strings.Join(c.DepSvc, ".")
+	}
+	if c.Order != "" {
+		k += "&order:" + c.Order
 	}
 	return k
 }
@@ -107,6 +111,7 @@ type fileModel struct {
 type requestModel struct {
 	Files []*fileModel // dependency order
 	Param string
+	Order string
 }
 
 func pkgDir(pkg string) string {
@@ -189,7 +194,10 @@ func goCamel(s string) string {
 }
 
 func buildModel(c caseSpec) (*requestModel, error) {
-	rm := &requestModel{Param: c.Param}
+	rm := &requestModel{Param: c.Param, Order: c.Order}
+	if c.Order != "" && c.Order != "dependent-first" {
+		return nil, fmt.Errorf("unknown file order %q", c.Order)
+	}
 	main := &fileModel{Name: mainFileName(c.Pkg), ProtoPkg: c.Pkg, GoPackage: mainGoPackage(c.Pkg), Generate: true}
 	local := map[string]*msgModel{}
 	addMsg := func(f *fileModel, protoName, goName string) *msgModel {
@@ -355,10 +363,16 @@ func (rm *requestModel) pb() *pluginpb.CodeGeneratorRequest {
 	if rm.Param != "" {
 		req.Parameter = proto.String(rm.Param)
 	}
+	// proto_file is always topological (protoc guarantees it); file_to_generate
+	// follows the command line, which need not be
 	for _, f := range rm.Files {
 		req.ProtoFile = append(req.ProtoFile, f.proto)
 		if f.Generate {
-			req.FileToGenerate = append(req.FileToGenerate, f.Name)
+			if rm.Order == "dependent-first" {
+				req.FileToGenerate = append([]string{f.Name}, req.FileToGenerate...)
+			} else {
+				req.FileToGenerate = append(req.FileToGenerate, f.Name)
+			}
 		}
 	}
 	return req
